@@ -4,8 +4,8 @@ import common
 
 PROPS = "RotoV.Props.C15"
 MODULES = ["RotoV.Lemmas.ListCap", "RotoV.Lemmas.ListRaw", "RotoV.Lemmas.ListInv", "RotoV.Lemmas.ListRefine", "RotoV.Lemmas.ListNested",
-           "RotoV.Lemmas.ListJoin", "RotoV.Lemmas.ListFor", "RotoV.Lemmas.ListSelfEq",
-           "RotoV.Model.ListM", "RotoV.Model.ListBase", "RotoV.Model.ListFor"]
+           "RotoV.Lemmas.ListJoin", "RotoV.Lemmas.ListFor", "RotoV.Lemmas.ListSelfEq", "RotoV.Lemmas.ListIter",
+           "RotoV.Model.ListM", "RotoV.Model.ListBase", "RotoV.Model.ListFor", "RotoV.Model.ListIter"]
 
 
 def search(ctx):
@@ -19,7 +19,7 @@ def search(ctx):
 
 
 def run(ctx):
-    ctx.extract(["capacity", "listlocks", "listguards", "listjoin", "listfor"])
+    ctx.extract(["capacity", "listlocks", "listguards", "listjoin", "listfor", "listiter"])
     ctx.prove(PROPS, extra_modules=MODULES)
     if ctx.build_harness("c15"):
         ctx.harness("c15", ["run", ctx.seed, ctx.tier], timeout=3000)
@@ -37,6 +37,9 @@ def run(ctx):
         "pair of the values used, on every run (floats_tie); a script `for` is the operation sequence RotoV.ListM.forOps (own "
         "handle, get by index until None, drop) parameterised by the lowering facts generated from src/mir/lower.rs; the "
         "function's variables are handle variables of the model",
+        "a Rust-side iterator is RotoV.ListM.istep over the decisions generated from IntoIterator for List<A> / IntoIter::next "
+        "(target listiter); `?` on List::get's None ends next without touching the index; the iterator's handle is a handle "
+        "variable no other operation names; size_hint is not modelled",
     ]
     return ctx.finish(
         level="proof",
@@ -58,7 +61,11 @@ def run(ctx):
              "nested List[List[f64]] scenarios) — and script loops with a body (`for x in l { …; if i == k { <body> } }` with "
              "<body> = l = o | l = l + o | l = [] | r.items = o (field path) | o.push(v) | o.swap(i, j), o the walked list, an "
              "alias or another list, k first / middle / last / never) as class representatives first, as a letter of the "
-             "exhaustive alphabets and in the random histories",
+             "exhaustive alphabets and in the random histories. Rust-side iterators kept ALIVE between operations "
+             "(`in:k:h` = h.clone().into_iter(), `ix:k` = next(), `id:k` = drop; two at once) against cursors into the shared "
+             "vectors and against RotoV.ListM.istep: growth through a Rust alias / a script during the walk, a walk that starts "
+             "empty, next after None, an iterator outliving every handle, swap / rebinding under two iterators, growth across a "
+             "reallocation — class representatives first, 5 letters of the exhaustive alphabets, a third of the random histories",
         search=search,
     )
 
